@@ -5,11 +5,13 @@ use serde_json::Value;
 use std::path::Path;
 use std::time::Instant;
 
+pub mod c12;
 pub mod c19;
 
 /// Result of replaying one saved input.
 pub fn replay_value(pid: &str, v: &Value) -> Outcome {
     match pid {
+        "C12" => c12::replay(v),
         "C19" => c19::replay(v),
         _ => Outcome::skip("no replay handler"),
     }
@@ -27,6 +29,7 @@ pub fn run(id: &str, env: &Env, known: &Known) -> i32 {
         }
     }
     let code = match id {
+        "C12" => c12::run(env, known, started, replayed, replay_violations),
         "C19" => c19::run(env, known, started, replayed, replay_violations),
         _ => {
             eprintln!("unknown check {id}");
